@@ -3,6 +3,7 @@ Shared by C01–C04: generated "worlds" of REAL insights components (fresh Compo
 datasource / parser / rule / RegistryPoint objects), run through the real engine, canonicalised and
 mirrored as protocol lines for Drivers/Dr.lean (IV.Dr model).
 """
+import os
 import itertools
 import logging
 
@@ -95,11 +96,20 @@ class Unhashable(Exception):
 RAISED = []   # (cid, name, exception object) for every exception a generated body raised
 
 
-def raise_exc(name, cid):
+def raise_exc(name, cid, cache=None, key=None):
+    """
+    Raise the fault `name` in component `cid`.  With a cache, the exception OBJECT is the one an earlier consumer of the
+    same input met (a content provider keeps the failure of its load and re-raises that one object to every consumer).
+    """
+    if cache is not None and key in cache:
+        RAISED.append((cid, name, cache[key]))
+        raise cache[key]
     try:
         _raise_exc(name, cid)
     except Exception as e:
         RAISED.append((cid, name, e))
+        if cache is not None:
+            cache[key] = e
         raise
 
 
@@ -182,6 +192,7 @@ class World(object):
         self.calls = []          # (cid, args) in call order — the oracle's call log
         self.comps = [None] * self.n
         self.ids = {}
+        self.exc_cache = {}
         # registry points first (they exist before their implementations in Python)
         points = [i for i, s in enumerate(spec) if s["kind"] == "point"]
         ns = {}
@@ -196,11 +207,19 @@ class World(object):
             self.comps[i] = self._make(i, s, tag)
         for i, c in enumerate(self.comps):
             self.ids[c] = i
-        if spec and spec[0].get("reset_enabled"):
-            import insights
+        import insights
+        reset = spec[0].get("reset_enabled") if spec else None
+        if reset == "off":
+            # "default off, named components on": what collect's manifest and `insights run -c` configurations do
+            insights.apply_default_enabled({"default_component_enabled": False})
+            for i, s in enumerate(spec):
+                if s.get("enabled", True):
+                    dr.set_enabled(self.comps[i], True)
+        elif reset or not dr.ENABLED.default_factory():
             insights.apply_default_enabled({"default_component_enabled": True})
         for i, s in enumerate(spec):
-            if not s.get("enabled", True):
+            if not s.get("enabled", True) and not (reset == "off" and i % 2):
+                # (under "default off" every other disabled component is simply not named)
                 dr.set_enabled(self.comps[i], False)
             for j in s.get("ignore", []):
                 dr.add_ignore(self.comps[i], self.comps[j])
@@ -219,6 +238,8 @@ class World(object):
                                            [canon_val(world, x) for x in args])))
             p = body.split(":")
             if p[0] == "f":
+                if s.get("shared_exc"):
+                    raise_exc(p[1], cid, world.exc_cache, (p[1], deps_ids[0] if deps_ids else None))
                 raise_exc(p[1], cid)
             def shaped(val):
                 # the same ordinary value as a tuple of 1..3 members (a sequence that is NOT a list)
@@ -370,8 +391,11 @@ class World(object):
             log["fired"].append(cid)
             # attribute every exception recorded since the previous firing to this component's step
             for target, lst in list(broker.exceptions.items()):
+                nth = {}
                 for ex in lst:
-                    key = (id(ex), world.ids.get(target, target))
+                    # (one exception OBJECT may be recorded against one target more than once: by occurrence)
+                    nth[id(ex)] = nth.get(id(ex), 0) + 1
+                    key = (id(ex), world.ids.get(target, target), nth[id(ex)])
                     if key not in log["src"]:
                         log["src"][key] = cid
         b.add_observer(obs, dr.ComponentType)
@@ -473,8 +497,10 @@ def canon_broker(world, b, with_trace=True):
     excs = []
     for target, lst in b.exceptions.items():
         t = world.ids.get(target)
+        nth = {}
         for ex in lst:
-            src = b.vlog["src"].get((id(ex), t if t is not None else target), "?")
+            nth[id(ex)] = nth.get(id(ex), 0) + 1
+            src = b.vlog["src"].get((id(ex), t if t is not None else target, nth[id(ex)]), "?")
             excs.append("%s:%s:%s" % (t if t is not None else "X(%s)" % dr.get_name(target), exc_name(ex), src))
     s = "inst=%s|missing=%s|exc=%s" % (inst, miss, " ".join(sorted(excs)))
     if with_trace:
@@ -601,8 +627,27 @@ def gen_spec(rng, n, fault_rate=0.25, with_points=True, with_ignore=False, seede
     if spec and rng.random() < 0.15:
         # the enabled registry is replaced (insights.apply_default_enabled, what `insights run -c`, collect and the shell
         # do first) BEFORE this world's components are disabled
-        spec[0]["reset_enabled"] = True
+        spec[0]["reset_enabled"] = rng.choice([True, "off"])
     return spec
+
+
+def add_shared_fault_parsers(rng, spec):
+    """
+    2..3 more single-value parsers of ONE existing datasource / registry point that all fail while reading it, with the
+    same exception OBJECT (what a lazily failing content provider gives every consumer).  Returns their ids.
+    """
+    ds = [j for j, s in enumerate(spec) if s["kind"] in ("datasource", "point") and not s.get("multi")]
+    good = [j for j in ds if spec[j].get("body", "p")[0] in "vp"]
+    if not ds:
+        return []
+    d = rng.choice(good or ds)
+    name = rng.choice(["content", "calledProc", "content", "calledProc", "timeout", "crash1"])
+    out = []
+    for _ in range(rng.randint(2, 3)):
+        spec.append({"kind": rng.choice(["parser0", "parser1"]), "items": [("o", d)], "optional": [], "enabled": True, "ignore": [],
+                     "elems": [], "body": "f:" + name, "shared_exc": True})
+        out.append(len(spec) - 1)
+    return out
 
 
 def gen_seeds(rng, spec, rate=0.12):
@@ -652,6 +697,7 @@ def evaluate(world, seeds, store_skips, graph, order=None, mode="components", ob
         b.add_observer(o, dr.ComponentType)
     instrument(world, b)
     world.calls = []
+    world.exc_cache.clear()
     del RAISED[:]
     g = dict((k, set(v)) for k, v in graph.items())
     r = Run()
@@ -740,7 +786,59 @@ def loaded_archive_history(world, graph, pre, store_skips, shared, via="run"):
             dr.run(g1, broker=hb)
     except Exception as ex:
         err = ex
+    # what this evaluation itself attempted, in order, and what it was given: it is an evaluation like any other
+    world.history_attempts = list(hb.vlog["attempts"])
+    world.history_held = [(cid, canon_val(world, hb.instances.get(world.comps[cid]))) for cid, _ in pre]
     return err, before, edges()
+
+
+class SavedInt(int):
+    """the value type the harness persists into the serialized archives it generates"""
+
+
+def _register_saved():
+    from insights.core import serde
+    if dr.get_name(SavedInt) not in serde.DESERIALIZERS:
+        serde.serializer(SavedInt)(lambda obj, root=None: {"v": int(obj)})
+        serde.deserializer(SavedInt)(lambda _t, data, root=None, ctx=None, ds=None: int(data["v"]))
+
+
+def archive_entry(world, graph, supplied, saved, store_skips, parallel=False):
+    """
+    The stand-alone entry point on a serialized archive: insights._run(broker, graph, root=<dir>), where <dir> holds
+    insights_archive.txt and a meta_data/ written by the real Hydration.dehydrate for the components of `saved`
+    [(cid, int)], and the caller's broker already holds the values of `supplied` [(cid, canonical value)].
+    Returns (broker or None, attempts, what changed in the declared edges, exception or None).
+    """
+    import insights
+    import shutil
+    import tempfile
+    from insights.core.serde import Hydration
+    _register_saved()
+    root = tempfile.mkdtemp(prefix="iv_arch_")
+    b, err, why = None, None, None
+    try:
+        open(os.path.join(root, "insights_archive.txt"), "w").close()
+        sb = dr.Broker()
+        h = Hydration(root)
+        for cid, v in saved:
+            sb[world.comps[cid]] = SavedInt(v)
+            sb.exec_times[world.comps[cid]] = 0.0
+            h.dehydrate(world.comps[cid], sb)
+        b = world.new_broker(supplied, store_skips)
+        instrument(world, b)
+        world.calls = []
+        edges = world.edge_snapshot()
+        try:
+            out = insights._run(b, graph=dict((k, set(v)) for k, v in graph.items()), root=root, parallel=parallel)
+            if out is not b:
+                raise AssertionError("insights._run returned %r instead of the broker it was given" % (type(out),))
+        except Exception as ex:
+            err = ex
+        why = world.edges_changed(edges)
+    finally:
+        shutil.rmtree(root, ignore_errors=True)
+    return b, list(b.vlog["attempts"]) if b is not None else [], why, err
 
 
 _replay_counter = [0]
